@@ -504,3 +504,105 @@ Theorem skip_refuted : exists right edges dd rd,
   /\ res_values (corr_data (meas_pc right edges dd) None (Some (meas_pc right edges rd)) None) = [1 # 8; -(1 # 2)]
   /\ res_values (corr_data (meas_pc_skip right edges dd) None (Some (meas_pc_skip right edges rd)) None) = [1 # 2; -(1 # 3)].
 Proof. exists true, [0; 1; 2], ex_dd, ex_rd. vm_compute. repeat split; reflexivity. Qed.
+
+(* ================================================================== weights that are not positive *)
+(* an object of weight 0 weighs nothing: masking by weight is removing from the total, in every cell *)
+Lemma weight_of_weighted l : weight_of (weighted l) == weight_of l.
+Proof.
+  unfold weight_of, weighted. induction l as [|o l IH]; simpl; [reflexivity|].
+  destruct (Qeqb (snd o) 0) eqn:E; simpl.
+  - apply Qeq_bool_iff in E. rewrite IH, E. ring.
+  - rewrite IH. reflexivity.
+Qed.
+
+Lemma cell_members_weighted right binned lo hi l :
+  cell_members right binned lo hi (weighted l) = weighted (cell_members right binned lo hi l).
+Proof.
+  unfold cell_members, bin_members, weighted. destruct binned; [|reflexivity].
+  induction l as [|o l IH]; simpl; [reflexivity|].
+  destruct (Qeqb (snd o) 0) eqn:Ew; destruct (in_bin right lo hi (fst o)) eqn:Eb; simpl; rewrite ?Ew, ?Eb; simpl; rewrite ?IH; reflexivity.
+Qed.
+
+Theorem masked_objects_weigh_nothing right binned lo hi l :
+  cell_weight right binned lo hi (weighted l) == cell_weight right binned lo hi l.
+Proof. unfold cell_weight. rewrite cell_members_weighted. apply weight_of_weighted. Qed.
+
+(* weights of both signs: a cell whose weights cancel leaves the total of the others *)
+Theorem cancelling_cell_leaves_total right binned lo hi (l : list cobj) (others : list (list cobj)) :
+  cell_weight right binned lo hi l == 0 ->
+  cell_weight right binned lo hi (concat (l :: others)) == cell_weight right binned lo hi (concat others).
+Proof.
+  intro H. simpl. unfold cell_weight in *. rewrite cell_members_app, weight_of_app, H. ring.
+Qed.
+
+(* the contrast implementation agrees with the catalogs' weights whenever no populated cell of the
+   catalog weighs nothing ... *)
+Definition no_weightless_cell (right : bool) (edges : list Q) (s : side) : Prop :=
+  forall lh l, In lh (bin_bounds edges) -> In l (sd_patches s) ->
+               cell_empty right (sd_binned s) (fst lh) (snd lh) l = true
+               \/ ~ cell_weight right (sd_binned s) (fst lh) (snd lh) l == 0.
+
+Lemma side_weights_or_id right edges s :
+  no_weightless_cell right edges s -> side_weights_or right edges s = side_weights right edges s.
+Proof.
+  intro H. unfold side_weights_or, side_weights, bin_weights. apply map_ext_in. intros lh Hlh.
+  apply map_ext_in. intros l Hl. unfold cell_weight_or, cell_weight.
+  destruct (H lh l Hlh Hl) as [He | Hn].
+  - unfold cell_empty in He. destruct (cell_members right (sd_binned s) (fst lh) (snd lh) l); [reflexivity | discriminate].
+  - unfold cell_weight in Hn.
+    destruct (Qeqb (weight_of (cell_members right (sd_binned s) (fst lh) (snd lh) l)) 0) eqn:E; [|reflexivity].
+    apply Qeq_bool_iff in E. contradiction.
+Qed.
+
+Theorem orcount_agrees_weighted right edges m :
+  no_weightless_cell right edges (mc_s1 m) -> no_weightless_cell right edges (mc_s2 m) ->
+  meas_pc_or right edges m = meas_pc right edges m.
+Proof. intros H1 H2. unfold meas_pc_or, meas_pc. f_equal; apply side_weights_or_id; assumption. Qed.
+
+(* ... in particular on every catalog whose weights are all positive ... *)
+Lemma weight_of_pos (l : list cobj) : l <> [] -> (forall o, In o l -> 0 < snd o) -> 0 < weight_of l.
+Proof.
+  unfold weight_of. induction l as [|o l IH]; intros Hne Hp; [congruence|]. simpl.
+  assert (Ho : 0 < snd o) by (apply Hp; left; reflexivity).
+  destruct l as [|o' l'].
+  - simpl. lra.
+  - assert (0 < qsum (map snd (o' :: l'))) by (apply IH; [discriminate | intros x Hx; apply Hp; right; exact Hx]). lra.
+Qed.
+
+Theorem positive_weights_no_weightless_cell right edges s :
+  (forall l o, In l (sd_patches s) -> In o l -> 0 < snd o) -> no_weightless_cell right edges s.
+Proof.
+  intros Hp lh l _ Hl. unfold cell_empty, cell_weight.
+  destruct (cell_members right (sd_binned s) (fst lh) (snd lh) l) as [|o m] eqn:E; [left; reflexivity | right].
+  assert (Hpos : 0 < weight_of (o :: m)).
+  { apply weight_of_pos; [discriminate|]. intros x Hx. apply (Hp l x Hl).
+    rewrite <- E in Hx. unfold cell_members, bin_members in Hx.
+    destruct (sd_binned s); [apply filter_In in Hx; tauto | exact Hx]. }
+  intro C. rewrite C in Hpos. apply Qlt_irrefl in Hpos. exact Hpos.
+Qed.
+
+(* ... and is not the documented estimator when objects are masked with weight 0 or weights cancel:
+   three unlinked patches, two bins (0, 1], (1, 2]; the reference objects of patch 1 in the first bin
+   carry weight 0 (two objects), those of patch 2 in the second bin weights 1, 1, -2; the unknown sample
+   weighs 1, 2, 1; the reference randoms (weight 1) populate every cell with one object.
+   Reference totals per bin: 2 + 0 + 1 = 3 and 1 + 2 + 0 = 3; with populated weightless cells counted by
+   their objects: 2 + 2 + 1 = 5 and 1 + 2 + 3 = 6.
+   The pair counts of patch 2 in the second bin are those of the two objects of weight 1 (the object of
+   weight -2 lies outside the scale cut).
+   DD/RD - 1 = (3/(3*4)) / (4/(3*4)) - 1 = -1/4 and (7/(3*4)) / (6/(3*4)) - 1 = 1/6, with the counted
+   cells (3/(5*4)) / (4/(3*4)) - 1 = -11/20 and (7/(6*4)) / (6/(3*4)) - 1 = -5/12. *)
+Definition exw_ref : side :=
+  {| sd_binned := true;
+     sd_patches := [[(1 # 2, 2); (3 # 2, 1)]; [(1 # 2, 0); (1 # 2, 0); (3 # 2, 2)];
+                    [(1 # 2, 1); (3 # 2, 1); (3 # 2, 1); (3 # 2, -(2))]] |}.
+Definition exw_dd : mcounts :=
+  {| mc_auto := false; mc_counts := [[[2; 0; 0]; [0; 0; 0]; [0; 0; 1]]; [[1; 0; 0]; [0; 4; 0]; [0; 0; 2]]];
+     mc_s1 := exw_ref; mc_s2 := ex_unk |}.
+
+Theorem orcount_refuted : exists right edges dd rd,
+  side_weights right edges (mc_s1 dd) = [[2; 0; 1]; [1; 2; 0]]
+  /\ map (map Qred) (side_weights_or right edges (mc_s1 dd)) = [[2; 2; 1]; [1; 2; 3]]
+  /\ res_values (corr_data_doc (meas_pc right edges dd) None (Some (meas_pc right edges rd)) None) = [-(1 # 4); 1 # 6]
+  /\ res_values (corr_data (meas_pc right edges dd) None (Some (meas_pc right edges rd)) None) = [-(1 # 4); 1 # 6]
+  /\ res_values (corr_data (meas_pc_or right edges dd) None (Some (meas_pc_or right edges rd)) None) = [-(11 # 20); -(5 # 12)].
+Proof. exists true, [0; 1; 2], exw_dd, ex_rd. vm_compute. repeat split; reflexivity. Qed.
